@@ -1,14 +1,15 @@
 import json, os, time
 
 VERIF = os.path.dirname(os.path.dirname(os.path.abspath(__file__)))
+OUT = os.environ.get("VERIF_OUT") or VERIF  # mutant runs redirect evidence/replays away from /verif
 
 
 def write_evidence(run, cov, violations, assumptions):
-    os.makedirs(os.path.join(VERIF, "evidence"), exist_ok=True)
+    os.makedirs(os.path.join(OUT, "evidence"), exist_ok=True)
     ev = {"property_id": run.prop, "tier": run.tier, "seed": run.seed, "level": "model_checking",
           "coverage": cov, "assumptions": list(assumptions), "wall_s": round(time.time() - run.t0, 2),
           "violations": violations}
-    path = os.path.join(VERIF, "evidence", run.prop + ".json")
+    path = os.path.join(OUT, "evidence", run.prop + ".json")
     tmp = path + ".tmp"
     json.dump(ev, open(tmp, "w"), indent=1, default=str)
     os.replace(tmp, path)
